@@ -64,6 +64,12 @@ func TestC08FailedTx(t *testing.T) {
 		cur = sim
 		defer sim.Close()
 		prober, twin := sim.Reps[0], sim.Reps[1]
+		candProfile := "hostile"
+		if spec.WithVault && rapid.Bool().Draw(t, "vaultTraffic") {
+			// vault-heavy histories: vaults are created, funded, given withdraw policies and withdrawn from
+			sim.Profile, candProfile = "vault", "hostile+vault"
+			rec.Label("traffic:vault")
+		}
 		fail := func(sig, format string, args ...any) {
 			ev.Violation(t, sig, "%s; spec=%+v trace=%v", fmt.Sprintf(format, args...), *spec, tail(sim.Trace, 20))
 		}
@@ -110,7 +116,12 @@ func TestC08FailedTx(t *testing.T) {
 				committedBefore, _ := chain.DumpAtVersion(prober, 0)
 				nc := rapid.IntRange(5, ev.Pick(15, 40)).Draw(t, "ncand")
 				for ci := 0; ci < nc; ci++ {
-					g := chain.NewTxGen(sim.W, view, "hostile")
+					g := chain.NewTxGen(sim.W, view, candProfile)
+					if ci == 0 && candProfile != "hostile" {
+						nv, nh := g.VaultStats()
+						rec.Label(fmt.Sprintf("probe-point:vaults=%d", min(nv, 3)))
+						rec.Label(fmt.Sprintf("probe-point:withdraw-policies=%d", min(nh, 3)))
+					}
 					d := g.Gen(t)
 					if d.Mutated == "system-method" {
 						// a user-signed system method can never be part of a block that validators accept (C10 covers it)
